@@ -531,8 +531,11 @@ def cu_eval_node(node, vals, env, idx):
             path = os.path.join(env.workdir, "inputs", f"in-{idx}-{env.zcount}.zarr")
             env.zcount += 1
             if data.size > 0 and data.ndim > 0:
-                z = zarr.create_array(store=path, shape=data.shape, dtype=data.dtype, chunks=chunks, overwrite=True)
-                z[...] = data
+                from vlib import storetrace
+
+                with storetrace.paused():  # the harness's own write of the input is not an observation
+                    z = zarr.create_array(store=path, shape=data.shape, dtype=data.dtype, chunks=chunks, overwrite=True)
+                    z[...] = data
                 return cubed.from_zarr(path, **skw)
             return xp.asarray(data, chunks=chunks, **skw)
         return xp.asarray(data, chunks=chunks, **skw)
@@ -899,7 +902,7 @@ class Gen:
         rng = self.rng
         fams = {
             "unary": 6, "binary": 10, "reduce": 10, "cum": 4, "manip": 12, "index": 8, "linalg": 5,
-            "concat": 5, "create": 3, "misc": 6, "multi": 3, "rechunk": 4,
+            "concat": 5, "create": 3, "misc": 6, "multi": 3, "rechunk": 4, "combo": 3, "random": 0,
         }
         fams.update(self.weights)
         fams = {k: v for k, v in fams.items() if v > 0}
@@ -1519,6 +1522,40 @@ class Gen:
         if not shape:
             shape = [rng.randint(2, self.maxdim)]
         return self._add({"op": "random", "in": [], "p": {"shape": shape, "chunks": draw_chunks(rng, shape)}}) is not None
+
+    def fam_combo(self):
+        """Diamond with repeated edges: an operation whose sources are (a, a, y) with y derived from a
+        by a deeper chain (fusion-relevant, and a MultiDiGraph with parallel edges)."""
+        rng = self.rng
+        i = self.pick_array(lambda v: v.ndim >= 1 and v.dtype.kind in "if" and v.size > 0)
+        if i is None:
+            i = self._add(self.new_leaf(ndim=rng.choice([1, 2]), dtype=rng.choice(["float64", "int64"])))
+            if i is None:
+                return False
+        a = self._vals[i]
+        if a.ndim == 0 or a.size == 0 or a.dtype.kind not in "if":
+            return False
+        y = i
+        for _ in range(rng.randint(1, 3)):
+            r = rng.random()
+            if r < 0.35:
+                y = self._add({"op": "rechunk", "in": [y], "p": {"chunks": draw_chunks(rng, a.shape)}})
+            elif r < 0.7:
+                y = self._add({"op": rng.choice(["negative", "abs", "square"]), "in": [y], "p": {}})
+            else:
+                y = self._add({"op": rng.choice(["add", "multiply", "subtract"]), "in": [y], "p": {"scalar": rng.randint(1, 3)}})
+            if y is None:
+                return False
+        form = rng.choice(["mul_add", "mul_add", "where", "stack", "concat"])
+        if form == "mul_add":
+            m = self._add({"op": "multiply", "in": [i, i], "p": {}})
+            return m is not None and self._add({"op": "add", "in": [m, y], "p": {}}) is not None
+        if form == "where":
+            c = self._add({"op": "greater", "in": [i], "p": {"scalar": 2}})
+            return c is not None and self._add({"op": "where", "in": [c, i, y], "p": {}}) is not None
+        if form == "stack":
+            return self._add({"op": "stack", "in": [i, i, y], "p": {"axis": rng.randint(0, a.ndim)}}) is not None
+        return self._add({"op": "concat", "in": [i, y, i], "p": {"axis": rng.randrange(a.ndim)}}) is not None
 
     def fam_rechunk(self):
         rng = self.rng
